@@ -164,7 +164,7 @@ structure InvR (st : St) : Prop extends InvW P st where
   peersSync : ∀ n, st.actual = some n → 0 < n → st.peerCount = n
 
 def SlotOK (st : St) (env : Str) (epoch : Nat) (s : Slot) : Prop :=
-  P (s.pfx, s.d) ∧ (s.pfx = env ∨ s.pfx = rulesPrefix env) ∧
+  P (s.pfx, s.d) ∧ (s.pfx = env ∨ s.pfx = rulesPrefix env) ∧ (s.id = none ↔ s.d.kind = Kind.determ) ∧
   ∀ id : Nat, s.id = some id → ∃ i : Inst, st.insts[id]? = some i ∧ makeKey i.pfx i.creator = makeKey s.pfx s.d ∧
     i.born = epoch ∧ assertOk i.kind s.d.kind = true
 
@@ -190,17 +190,16 @@ structure Ext (st st' : St) : Prop where
   caches : st'.caches = st.caches
   epoch : st'.epoch = st.epoch
   cfg : st'.cfg = st.cfg
-  actual : st'.actual = st.actual
   ghost : ∀ (id : Nat) (i : Inst), st.insts[id]? = some i → ∃ i' : Inst, st'.insts[id]? = some i' ∧ ghost i' = ghost i
   goalMono : ∀ k, (AList.get st.goalCfg k).isSome = true → (AList.get st'.goalCfg k).isSome = true
 
 def RegMono (st st' : St) : Prop := ∀ k id, AList.get st.reg k = some id → AList.get st'.reg k = some id
 
 theorem Ext.refl (st : St) : Ext st st :=
-  ⟨rfl, rfl, rfl, rfl, fun id i h => ⟨i, h, rfl⟩, fun _ h => h⟩
+  ⟨rfl, rfl, rfl, fun id i h => ⟨i, h, rfl⟩, fun _ h => h⟩
 
 theorem Ext.trans {a b c : St} (h1 : Ext a b) (h2 : Ext b c) : Ext a c :=
-  ⟨h2.caches.trans h1.caches, h2.epoch.trans h1.epoch, h2.cfg.trans h1.cfg, h2.actual.trans h1.actual,
+  ⟨h2.caches.trans h1.caches, h2.epoch.trans h1.epoch, h2.cfg.trans h1.cfg,
     fun id i h => by
       obtain ⟨i1, hi1, g1⟩ := h1.ghost id i h
       obtain ⟨i2, hi2, g2⟩ := h2.ghost id i1 hi1
@@ -216,8 +215,8 @@ variable {P : Str × Def → Prop}
 
 theorem SlotOK.ext {st st' : St} {env : Str} {ep : Nat} {s : Slot} (h : SlotOK P st env ep s)
     (e : Ext st st') : SlotOK P st' env ep s := by
-  obtain ⟨h1, h2, h3⟩ := h
-  refine ⟨h1, h2, fun id hid => ?_⟩
+  obtain ⟨h1, h2, hd, h3⟩ := h
+  refine ⟨h1, h2, hd, fun id hid => ?_⟩
   obtain ⟨i, hi, hk, hb, ha⟩ := h3 id hid
   obtain ⟨i', hi', hg⟩ := e.ghost id i hi
   obtain ⟨g1, g2, g3, g4⟩ := ghost_eq hg
@@ -249,7 +248,7 @@ theorem InvF.ext {st st' : St} (h : InvF st) (e : Ext st st') (m : RegMono st st
 /-! ## `updatePeerCounts` -/
 
 theorem updatePeers_ext (st : St) : Ext st (updatePeers st) := by
-  refine ⟨rfl, rfl, rfl, rfl, ?_, fun _ h => h⟩
+  refine ⟨rfl, rfl, rfl, ?_, fun _ h => h⟩
   intro id i h
   have := applyGoals_ghost st.goalCfg (refreshCount st.actual st.peerCount) st.reg st.insts id
   rw [h] at this
@@ -341,12 +340,27 @@ theorem get_append_cases {insts : List Inst} {x : Inst} {id : Nat} {i : Inst} (h
       obtain ⟨m, hm⟩ := Nat.exists_eq_succ_of_ne_zero (Nat.ne_of_gt this)
       rw [hm] at h; simp at h
 
+/-- the instance `create(config)` returns -/
+def newInst (st : St) (pfx : Str) (d : Def) : Inst :=
+  { kind := d.kind, goal := if d.kind.isThroughput then creationGoal d.rate else 0,
+    pfx := pfx, creator := d, born := st.epoch }
+
 /-- the state `regStep` produces when it creates a new instance -/
 def freshSt (st : St) (pfx : Str) (d : Def) : St :=
-  { st with
-      insts := st.insts ++ [{ kind := d.kind, goal := if d.kind.isThroughput then creationGoal d.rate else 0,
-                              pfx := pfx, creator := d, born := st.epoch }],
-      reg := AList.put st.reg (makeKey pfx d) st.insts.length }
+  { st with insts := st.insts ++ [newInst st pfx d],
+            reg := AList.put st.reg (makeKey pfx d) st.insts.length }
+
+theorem regStep_eq (st : St) (pfx : Str) (d : Def) : regStep st pfx d =
+    match AList.get st.reg (makeKey pfx d) with
+    | some id =>
+      match st.insts[id]? with
+      | some i => if assertOk i.kind d.kind then (st, id) else (freshSt st pfx d, st.insts.length)
+      | none => (freshSt st pfx d, st.insts.length)
+    | none => (freshSt st pfx d, st.insts.length) := rfl
+
+theorem freshSt_get (st : St) (pfx : Str) (d : Def) :
+    (freshSt st pfx d).insts[st.insts.length]? = some (newInst st pfx d) := by
+  simp [freshSt]
 
 theorem regStep_cases (st : St) (pfx : Str) (d : Def) :
     (∃ id i, AList.get st.reg (makeKey pfx d) = some id ∧ st.insts[id]? = some i ∧
@@ -355,19 +369,21 @@ theorem regStep_cases (st : St) (pfx : Str) (d : Def) :
       (AList.get st.reg (makeKey pfx d) = none ∨
         ∃ id, AList.get st.reg (makeKey pfx d) = some id ∧
           ∀ i, st.insts[id]? = some i → assertOk i.kind d.kind = false)) := by
-  unfold regStep freshSt
+  rw [regStep_eq]
   cases hg : AList.get st.reg (makeKey pfx d) with
   | none => right; exact ⟨rfl, Or.inl rfl⟩
   | some id =>
     cases hi : st.insts[id]? with
-    | none => right; simp only [hi]; exact ⟨rfl, Or.inr ⟨id, rfl, fun i h => by cases h⟩⟩
+    | none =>
+      right
+      refine ⟨by simp only [hi], Or.inr ⟨id, rfl, fun i h => ?_⟩⟩
+      rw [hi] at h; cases h
     | some i =>
       by_cases ha : assertOk i.kind d.kind = true
-      · left; exact ⟨id, i, rfl, hi, ha, by simp [hi, ha]⟩
+      · left; exact ⟨id, i, rfl, hi, ha, by simp only [hi, ha, if_true]⟩
       · right
-        simp only [hi, ha]
-        refine ⟨rfl, Or.inr ⟨id, rfl, fun i' h' => ?_⟩⟩
-        cases h'
+        refine ⟨by simp only [hi, ha]; rfl, Or.inr ⟨id, rfl, fun i' h' => ?_⟩⟩
+        rw [hi] at h'; cases h'
         simpa using ha
 
 theorem freshSt_W {st : St} (h : InvW P st) {pfx : Str} {d : Def} (hP : P (pfx, d)) :
@@ -391,7 +407,7 @@ theorem freshSt_W {st : St} (h : InvW P st) {pfx : Str} {d : Def} (hP : P (pfx, 
   · intro k id hm
     rcases mem_put hm with e | ⟨m, _⟩
     · obtain ⟨rfl, rfl⟩ := Prod.mk.inj e
-      refine ⟨_, by simp [freshSt], rfl, rfl, hP⟩
+      exact ⟨newInst st pfx d, freshSt_get st pfx d, rfl, rfl, hP⟩
     · obtain ⟨i, hi, r⟩ := h.regWF k id m
       exact ⟨i, get_append_old hi, r⟩
   · intro id i hi
@@ -401,16 +417,15 @@ theorem freshSt_W {st : St} (h : InvW P st) {pfx : Str} {d : Def} (hP : P (pfx, 
   · intro k id i hm hi ht hnone
     rcases mem_put hm with e | ⟨m, _⟩
     · obtain ⟨rfl, rfl⟩ := Prod.mk.inj e
-      have : (freshSt st pfx d).insts[st.insts.length]? = some _ := by simp [freshSt]
-      rw [this] at hi; cases hi
-      simp only at ht ⊢
+      rw [freshSt_get] at hi; cases hi
+      simp only [newInst] at ht ⊢
       simp [ht]
     · rcases get_append_cases hi with hi | ⟨e, _⟩
       · exact h.goalUntracked k id i m hi ht hnone
       · have := hlt k id m; omega
 
 theorem freshSt_ext (st : St) (pfx : Str) (d : Def) : Ext st (freshSt st pfx d) :=
-  ⟨rfl, rfl, rfl, rfl, fun id i h => ⟨i, get_append_old h, rfl⟩, fun _ h => h⟩
+  ⟨rfl, rfl, rfl, fun id i h => ⟨i, get_append_old h, rfl⟩, fun _ h => h⟩
 
 /-- what `regStep` guarantees about the instance it hands out -/
 structure RegStepOut (P : Str × Def → Prop) (st : St) (pfx : Str) (d : Def) (r : St × Nat) : Prop where
@@ -435,7 +450,7 @@ theorem regStep_out {st : St} (h : InvW P st) {pfx : Str} {d : Def} (hP : P (pfx
     exact ⟨h, Ext.refl st, rfl, rfl, ⟨i, hi, hk, hb, ha⟩, hg, fun _ => RegMono.refl st⟩
   · rw [he]
     refine ⟨freshSt_W h hP, freshSt_ext st pfx d, rfl, rfl, ?_, ?_, ?_⟩
-    · exact ⟨_, by simp [freshSt], rfl, rfl, assertOk_self _⟩
+    · exact ⟨newInst st pfx d, freshSt_get st pfx d, rfl, rfl, assertOk_self _⟩
     · show AList.get (AList.put st.reg _ _) _ = _
       rw [AList.get_put]; simp
     · intro hF
@@ -472,7 +487,7 @@ theorem createDyn_out {st : St} (h : InvW P st) {env pfx : Str} {d : Def} (hP : 
   by_cases hdet : d.kind = .determ
   · simp only [hdet, if_true]
     exact ⟨updatePeers_R h, updatePeers_ext st, fun _ => updatePeers_regMono st, ⟨rfl, rfl⟩,
-      ⟨hP, hpfx, fun id hid => by cases hid⟩, fun hne => absurd rfl hne, fun id hid => by cases hid⟩
+      ⟨hP, hpfx, ⟨fun _ => hdet, fun _ => rfl⟩, fun id hid => by cases hid⟩, fun hne => absurd rfl hne, fun id hid => by cases hid⟩
   · simp only [hdet, if_false]
     have ro := regStep_out h hP (pfx := pfx) (d := d)
     generalize regStep st pfx d = r at ro
@@ -500,14 +515,14 @@ theorem createDyn_out {st : St} (h : InvW P st) {env pfx : Str} {d : Def} (hP : 
           · simp only [e, if_false] at hk
             exact hi.goalProv k c hk
       have hE2 : Ext st1 { st1 with goalCfg := AList.put st1.goalCfg (makeKey pfx d) d.rate } :=
-        ⟨rfl, rfl, rfl, rfl, fun id i h => ⟨i, h, rfl⟩, fun k hk => by
+        ⟨rfl, rfl, rfl, fun id i h => ⟨i, h, rfl⟩, fun k hk => by
           simp only [AList.get_put]
           by_cases e : makeKey pfx d = k <;> simp [e, hk]⟩
       have hE := (ro.ext.trans hE2).trans (updatePeers_ext _)
       refine ⟨updatePeers_R hW2, hE, fun hF => (ro.mono hF).trans (RegMono.trans (fun _ _ h => h) (updatePeers_regMono _)),
         ⟨rfl, rfl⟩, ?_, ?_, ?_⟩
       · have : SlotOK P st1 env st.epoch ⟨pfx, d, some id⟩ :=
-          ⟨hP, hpfx, fun id' hid => by cases hid; exact ro.inst⟩
+          ⟨hP, hpfx, ⟨(fun hn => by cases hn), (fun hk => absurd hk hdet)⟩, fun id' hid => by cases hid; exact ro.inst⟩
         exact this.ext (hE2.trans (updatePeers_ext _))
       · intro _ _ _
         show (AList.get (AList.put st1.goalCfg (makeKey pfx d) d.rate) (makeKey pfx d)).isSome = true
@@ -517,7 +532,7 @@ theorem createDyn_out {st : St} (h : InvW P st) {env pfx : Str} {d : Def} (hP : 
       have hE := ro.ext.trans (updatePeers_ext st1)
       refine ⟨updatePeers_R ro.inv, hE, fun hF => (ro.mono hF).trans (updatePeers_regMono _), ⟨rfl, rfl⟩, ?_, ?_, ?_⟩
       · have : SlotOK P st1 env st.epoch ⟨pfx, d, some id⟩ :=
-          ⟨hP, hpfx, fun id' hid => by cases hid; exact ro.inst⟩
+          ⟨hP, hpfx, ⟨(fun hn => by cases hn), (fun hk => absurd hk hdet)⟩, fun id' hid => by cases hid; exact ro.inst⟩
         exact this.ext (updatePeers_ext _)
       · intro _ ht hu
         simp only at ht hu
@@ -539,8 +554,8 @@ theorem createMany_out {env pfx : Str} (hpfx : pfx = env ∨ pfx = rulesPrefix e
     ∀ (ds : List Def) {st : St}, InvR P st → (∀ d ∈ ds, P (pfx, d)) →
       ManyOut P st env (ds.map fun d => (pfx, d)) (createMany st pfx ds)
   | [], st, h, _ =>
-    ⟨h, Ext.refl st, fun _ => RegMono.refl st, rfl, fun s hs => by cases hs, fun s hs => by cases hs,
-      fun _ s hs => by cases hs⟩
+    ⟨h, Ext.refl st, fun _ => RegMono.refl st, rfl, (fun s hs => by cases hs), (fun s hs => by cases hs),
+      (fun _ s hs => by cases hs)⟩
   | d :: ds, st, h, hP => by
     have c1 := createDyn_out h.toInvW (hP d (by simp)) hpfx (st := st) (env := env)
     have c2 := createMany_out hpfx ds c1.inv (fun d' hd' => hP d' (List.mem_cons_of_mem _ hd'))
